@@ -621,7 +621,7 @@ func nativeReplay(path string, kind string) (string, string) {
 	ovb, _ := json.Marshal(map[string]interface{}{"Replace": repl})
 	ovf := filepath.Join(tmp, "overlay.json")
 	os.WriteFile(ovf, ovb, 0o644)
-	cmd := exec.Command("go", "test", "-vet=off", "-count=1", "-timeout", "25s", "-overlay", ovf, "-run", "^TestVfReplay$", "./"+rf.Pkg)
+	cmd := exec.Command("go", "test", "-v", "-vet=off", "-count=1", "-timeout", "25s", "-overlay", ovf, "-run", "^TestVfReplay$", "./"+rf.Pkg)
 	cmd.Dir = repoDir
 	cmd.Env = append(os.Environ(), "GOFLAGS=-mod=mod", "GOPROXY=off", "GOSUMDB=off", "GOTOOLCHAIN=local", "VF_REPLAY="+path)
 	out, _ := cmd.CombinedOutput()
@@ -652,6 +652,9 @@ func cmdReplay(args []string) int {
 		return 2
 	}
 	var rf replayFile
+	if abs, err := filepath.Abs(args[0]); err == nil {
+		args[0] = abs
+	}
 	b, _ := os.ReadFile(args[0])
 	json.Unmarshal(b, &rf)
 	st, detail := nativeReplay(args[0], rf.Kind)
